@@ -162,7 +162,33 @@ def check_system(ctx, flavour, n, tag):
         model, ref = b.split('|')
         if i != ref:
             bad += 1
-            if bad <= 3:
+            if bad == 1:
+                def differs(cs):
+                    im = ctx.harness('ffi_wire', cs, timeout=600)
+                    bo = ctx.coq_eval(['Base.Show', 'Model.DbTypes', 'Model.FfiWire'], FN, [to_coq(x) for x in cs], case_type='list item',
+                                      preamble='Local Open Scope string_scope.', per_shard=150)
+                    return [x != y.split('|')[1] for x, y in zip(im, bo)]
+
+                def cands(case):
+                    gs = case.split()
+                    for k in range(len(gs)):
+                        if len(gs) > 1:
+                            yield ' '.join(gs[:k] + gs[k + 1:])
+                    for k, g in enumerate(gs):
+                        if g[0] in 'IT':
+                            os_ = [o for o in g[2:].split(';') if o]
+                            for j in range(len(os_)):
+                                rest = os_[:j] + os_[j + 1:]
+                                if rest:
+                                    yield ' '.join(gs[:k] + [g[:2] + ';'.join(rest)] + gs[k + 1:])
+                try:
+                    c = vlib.shrink_batch(c, differs, cands)
+                    i = ctx.harness('ffi_wire', [c], timeout=600)[0]
+                    model, ref = ctx.coq_eval(['Base.Show', 'Model.DbTypes', 'Model.FfiWire'], FN, [to_coq(c)], case_type='list item',
+                                              preamble='Local Open Scope string_scope.')[0].split('|')
+                except Exception:
+                    pass
+            if bad <= 1:
                 ii, rr = i.split(';'), ref.split(';')
                 pos = next((k for k in range(min(len(ii), len(rr))) if ii[k] != rr[k]), min(len(ii), len(rr)))
                 got = ii[pos] if pos < len(ii) else '(missing)'
